@@ -6,6 +6,7 @@ SPEC = {
                                     "C14_side_cond_necessary", "C14_lock_key_determines_cache_keys", "C14_no_identical_inflight_questions",
                                     "C14_source_structure", "C14_served_once", "C14_one_run_per_lifetime",
                                     "C14_no_lost_unlock", "C14_cache_model_refines_lts", "C14_process_job_refines_lts",
+                                    "C14_timed_refines_untimed", "C14_answer_reused_for_cache_lifetime", "C14_timed_invariants",
                                     "C14_nonvacuous"]},
     "harness_args": lambda tier: ["C14", "--n", 600 if tier == "quick" else 6000, "--stress", 150 if tier == "quick" else 1500],
     "search_args": lambda tier: ["C14", "--n", 600, "--stress", 200],
@@ -19,8 +20,9 @@ SPEC = {
         "correspondence (sequential): queryCache.get/set/gc with an injected clock vs Model.KeyLockCache; partitionLocker driven by a "
         "deterministic scheduler (goroutines parked on channels) vs the LTS lock/unlock actions and its held set; processJob with "
         "scripted queriers vs Model.KeyLockCache.process_job; the composed pipeline (real Query/Config/Flags/Metadata through lock, "
-        "queue, workers, cache with injected clock, HTTP to a scripted server) one call at a time vs the LTS action sequence "
-        "lock/enqueue/take/check/(end)/reply/unlock — all through overlay export shims; the two models are related by theorems "
+        "queue, workers, cache with injected clock, HTTP to a scripted server) one call at a time, with clock advances onto/around "
+        "every expiry and staleness instant and cache gcs in between, vs the TIMED transition system (Model/KeyLockTimed.v, TTLs = the "
+        "CacheTTL() of the real query types): lock/enqueue/take/check/(end)/reply/unlock, tick, gc — all through overlay export shims; the two models are related by theorems "
         "C14_cache_model_refines_lts / C14_process_job_refines_lts",
         "key construction: coq/Gen/C14.v (lock key parts and hashed cache key parts per API method, plus 'Wait is re-checked in a loop' "
         "and 'processJob is only called by queryWorker') is regenerated from the Go AST by translator/ext_C14.go on every run (fails "
@@ -96,7 +98,11 @@ MANIFEST = {
             "set is exactly the keys of callers inside their call; requests in flight <= concurrency; if the lock key determines the "
             "cache keys no two identical requests are in flight (or anywhere in the pool) at once; within a cache lifetime a cache key "
             "has at most one successful request and every caller observes that value; a call ends only through its unlock and no "
-            "step can get stuck before it (error paths included). PARTIAL: the runtime semantics of sync.Cond/channels/scheduler are "
+            "step can get stuck before it (error paths included). A TIMED version of the system (injected clock, cache entries with "
+            "expiry and last-read instants, gc evicting exactly what queryCache.gc evicts now) is proved to refine the untimed one, "
+            "and 'a successful answer is reused for its cache lifetime' is proved of it: stored with expiry now+TTL, every lookup "
+            "while cached is a hit without a request, value and expiry never change, only a gc past the expiry or after maxStale "
+            "without a read removes it. PARTIAL: the runtime semantics of sync.Cond/channels/scheduler are "
             "assumed to match the LTS actions; they are exercised, not proved, by stress runs of the real client (and -race in the "
             "thorough tier when available). The side condition 'the lock key determines the cache keys' is PROVED from the key "
             "construction table that a translator extension regenerates from the Go AST on every run (lock key parts / hashed cache "
